@@ -248,7 +248,7 @@ theorem gen_open_then_lookup (xx : List UInt8 → UInt64) (eh : UInt32 → List 
       exact hvs0 this
     have := gen_ciDBLookup_eq_spec xx eh fuel
       { Header := { ValueSize := UInt64.ofNat vs, NumBuckets := UInt32.ofNat nb, Metadata := ofKvs m },
-        headerSize := (hsz : Int), Stream := memRd l, prefetch := false } l hsz key bi rfl rfl rfl hne0 (by omega) hf hbh
+        headerSize := (hsz : Int), Stream := memRd l, prefetch := false } l hsz key bi rfl rfl hne0 (by omega) hf hbh
     rw [this]
     simp only [Int.toNat_natCast]
 
